@@ -354,12 +354,71 @@ func DomConds(b *ssa.BasicBlock) []CondEdge {
 func normCond(v ssa.Value, taken bool) (ssa.Value, bool) {
 	for {
 		u, ok := v.(*ssa.UnOp)
+		if ok && u.Op == token.MUL {
+			// a boolean parked in a local (or a field of a local struct) and read back:
+			// "res.advanced = cond; if res.advanced {…}" tests cond
+			if w := forwardLocalStore(u); w != nil {
+				v = w
+				continue
+			}
+		}
 		if !ok || u.Op != token.NOT {
 			return v, taken
 		}
 		v = u.X
 		taken = !taken
 	}
+}
+
+// forwardLocalStore: ld loads a boolean from a local slot (an Alloc of the same function,
+// or a field of one) that has exactly one store, and that store dominates the load:
+// returns the stored value.
+func forwardLocalStore(ld *ssa.UnOp) ssa.Value {
+	bt, isB := ld.Type().Underlying().(*types.Basic)
+	if !isB || bt.Kind() != types.Bool {
+		return nil
+	}
+	var al *ssa.Alloc
+	field := -1
+	switch a := ld.X.(type) {
+	case *ssa.Alloc:
+		al = a
+	case *ssa.FieldAddr:
+		if x, ok := a.X.(*ssa.Alloc); ok {
+			al, field = x, a.Field
+		}
+	}
+	if al == nil || al.Parent() != ld.Parent() {
+		return nil
+	}
+	var stores []*ssa.Store
+	escapes := false
+	for _, r := range *al.Referrers() {
+		switch x := r.(type) {
+		case *ssa.Store:
+			if x.Addr == ssa.Value(al) {
+				if field < 0 {
+					stores = append(stores, x)
+				} else {
+					escapes = true // whole-struct store: give up
+				}
+			}
+		case *ssa.FieldAddr:
+			if field >= 0 && x.Field == field {
+				for _, rr := range *x.Referrers() {
+					if st, ok := rr.(*ssa.Store); ok && st.Addr == ssa.Value(x) {
+						stores = append(stores, st)
+					}
+				}
+			}
+		case *ssa.MakeClosure, ssa.CallInstruction:
+			escapes = true
+		}
+	}
+	if escapes || len(stores) != 1 || !InstrDominates(stores[0], ld) {
+		return nil
+	}
+	return stores[0].Val
 }
 
 // A CondPat decides whether "cond evaluated to taken" establishes the wanted fact.
